@@ -1,0 +1,145 @@
+//go:build verif
+
+package selectorvalidator
+
+// Contracts for the verif build tag only (comment-only file; see /verif/DESIGN.md).
+// C08: the selector-over-selectors used by the default validator reaches the recursion limit of EVERY
+// recursive exploration, under every kind of explore clause of the selector grammar, and the visit
+// callback accepts a limit exactly when it is a depth limit within the accepted maximum.
+
+//@ -- ---- abstract view of selector specs built through the go-ipld-prime builder (assumed dependency contracts) ----
+//@ fn spLeaf(kind int) ref                  -- 0: recursive edge ("@"), 1: matcher (".")
+//@ fn spAll(next ref) ref                   -- explore-all
+//@ fn spRec(limit ref, seq ref) ref         -- explore-recursive
+//@ fn spIsFields(s ref) bool                -- explore-fields
+//@ fn spDom(s ref) set[ref]                 -- ... the field names it explores
+//@ fn spMap(s ref) map[ref]ref              -- ... and the spec applied below each
+//@ fn limNone(l ref) bool
+//@ fn selSpec(sel ref) ref                  -- the spec a compiled selector was built from
+//@ ghost fIns map[ref]map[ref]ref           -- per explore-fields builder: inserted name -> spec
+//@ ghost fDom map[ref]set[ref]              -- per explore-fields builder: inserted names
+//@ func github.com/ipld/go-ipld-prime/traversal/selector/builder.NewSelectorSpecBuilder
+//@   assumed
+//@   ensures result != nil
+//@ func github.com/ipld/go-ipld-prime/traversal/selector/builder.SelectorSpecBuilder.ExploreRecursiveEdge
+//@   assumed
+//@   ensures result == spLeaf(0) && result != nil
+//@ func github.com/ipld/go-ipld-prime/traversal/selector/builder.SelectorSpecBuilder.Matcher
+//@   assumed
+//@   ensures result == spLeaf(1) && result != nil
+//@ func github.com/ipld/go-ipld-prime/traversal/selector/builder.SelectorSpecBuilder.ExploreAll
+//@   assumed
+//@   ensures result == spAll(next) && result != nil
+//@ func github.com/ipld/go-ipld-prime/traversal/selector/builder.SelectorSpecBuilder.ExploreRecursive
+//@   assumed
+//@   ensures result == spRec(limit, sequence) && result != nil
+//@ func github.com/ipld/go-ipld-prime/traversal/selector.RecursionLimitNone
+//@   assumed
+//@   ensures limNone(result)
+//@ func github.com/ipld/go-ipld-prime/traversal/selector/builder.ExploreFieldsSpecBuilder.Insert
+//@   assumed
+//@   modifies fIns, fDom
+//@   ghost fIns := upd(old(fIns), self, upd(old(fIns)[self], k, v))
+//@   ghost fDom := upd(old(fDom), self, add(old(fDom)[self], k))
+//@ -- explore-fields hands a NEW, empty fields builder to the closure, once, and returns the fields clause it assembled
+//@ func github.com/ipld/go-ipld-prime/traversal/selector/builder.SelectorSpecBuilder.ExploreFields
+//@   assumed
+//@   params specBuilder
+//@   invokes specBuilder(b) init fDom := upd(fDom, b, emptyset(ref))
+//@   ensures result != nil && spIsFields(result) && spDom(result) == fDom[b] && spMap(result) == fIns[b]
+//@ func github.com/ipld/go-ipld-prime/traversal/selector/builder.SelectorSpec.Selector
+//@   assumed
+//@   ensures selSpec(result0) == self
+
+//@ -- ---- the selector grammar (go-ipld-prime v0.24): the clauses that contain further selectors, and where ----
+//@ -- every kind of explore clause; C08 names interpret-as explicitly
+//@ pred exploreKey(k string) := k == "R" || k == "f" || k == "|" || k == "a" || k == "i" || k == "r" || k == "&" || k == "~"
+//@ -- `s` explores field `name` and continues there with the whole table again (recursive edge)
+//@ pred descends(s ref, name string) := spIsFields(s) && spDom(s)[name] && spMap(s)[name] == spLeaf(0)
+
+//@ fn recLim(s ref) ref
+//@ fn recSeq(s ref) ref
+//@ axiom rec_inv: forall l ref, q ref {spRec(l, q)} :: recLim(spRec(l, q)) == l && recSeq(spRec(l, q)) == q
+
+//@ -- the table: an unbounded recursion over an explore-fields clause F that has an entry for every explore clause
+//@ func init
+//@   modifies maxDepthSelector, fIns, fDom, alloc
+//@   ensures let top := selSpec(maxDepthSelector) :: top == spRec(recLim(top), recSeq(top)) && limNone(recLim(top)) && spIsFields(recSeq(top))
+//@   -- completeness (taken from the property): every kind of explore clause is entered
+//@   ensures let D := spDom(recSeq(selSpec(maxDepthSelector))) :: D["R"] && D["f"] && D["|"] && D["a"] && D["i"] && D["r"] && D["&"] && D["~"]
+//@   -- ... and nothing else is
+//@   ensures let F := recSeq(selSpec(maxDepthSelector)) :: forall k string :: spDom(F)[k] ==> exploreKey(k)
+//@   -- below a clause with one sub-selector the walk continues with that sub-selector
+//@   ensures let M := spMap(recSeq(selSpec(maxDepthSelector))) :: descends(M["a"], ">") && descends(M["i"], ">") && descends(M["r"], ">") && descends(M["&"], ">") && descends(M["~"], ">")
+//@   -- below explore-recursive: the limit is MATCHED (handed to the visit function), the sequence is walked
+//@   ensures let R := spMap(recSeq(selSpec(maxDepthSelector)))["R"] :: spIsFields(R) && spDom(R)["l"] && spMap(R)["l"] == spLeaf(1) && descends(R, ":>")
+//@   -- below explore-fields / explore-union: every member is walked
+//@   ensures let Fl := spMap(recSeq(selSpec(maxDepthSelector)))["f"] :: spIsFields(Fl) && spDom(Fl)["f>"] && spMap(Fl)["f>"] == spAll(spLeaf(0))
+//@   ensures spMap(recSeq(selSpec(maxDepthSelector)))["|"] == spAll(spLeaf(0))
+
+//@ -- ---- the visit function: which limit nodes are accepted ----
+//@ -- ipld nodes as (assumed) pure functions of the node; the first entry of a map node is what a new iterator yields first
+//@ fn nKind(n ref) int
+//@ fn nLen(n ref) int
+//@ fn nKey1(n ref) ref
+//@ fn nVal1(n ref) ref
+//@ fn nStr(n ref) string
+//@ fn nInt(n ref) int
+//@ fn nIntErr(n ref) error
+//@ fn iterOf(it ref) ref
+//@ func github.com/ipld/go-ipld-prime/datamodel.Node.Kind
+//@   assumed
+//@   pure
+//@   ensures result == nKind(self)
+//@ func github.com/ipld/go-ipld-prime/datamodel.Node.Length
+//@   assumed
+//@   pure
+//@   ensures result == nLen(self)
+//@ func github.com/ipld/go-ipld-prime/datamodel.Node.MapIterator
+//@   assumed
+//@   ensures result != nil && iterOf(result) == self
+//@ func github.com/ipld/go-ipld-prime/datamodel.MapIterator.Next
+//@   assumed
+//@   ensures result0 == nKey1(iterOf(self)) && result1 == nVal1(iterOf(self)) && result0 != nil && result1 != nil
+//@ func github.com/ipld/go-ipld-prime/datamodel.Node.AsString
+//@   assumed
+//@   pure
+//@   ensures result0 == nStr(self)
+//@ func github.com/ipld/go-ipld-prime/datamodel.Node.AsInt
+//@   assumed
+//@   pure
+//@   ensures result0 == nInt(self) && result1 == nIntErr(self)
+
+//@ -- a limit node is accepted exactly when it is {"depth": d} with an integer d <= max ({"none": {}} and anything else is refused)
+//@ pred limitOK(n ref, max int) := nKind(n) == 123 && nLen(n) == 1 && nStr(nKey1(n)) == "depth" && nIntErr(nVal1(n)) == nil && nInt(nVal1(n)) <= max
+//@ func ValidateMaxRecursionDepth.func1
+//@   requires visited != nil && ErrInvalidLimit != nil   -- errors.New never returns nil; the variable is not assigned anywhere else
+//@   ensures (result == nil) <==> limitOK(visited, maxAcceptedDepth)
+//@   ensures result != nil ==> result == ErrInvalidLimit
+
+//@ -- ---- wiring: the verdict is the walk of THIS table over the request's selector with THAT visit function ----
+//@ ghost lastWalk error
+//@ func github.com/ipld/go-ipld-prime/traversal.WalkMatching
+//@   assumed
+//@   modifies lastWalk
+//@   ghost lastWalk := result
+//@ func ValidateMaxRecursionDepth
+//@   modifies lastWalk
+//@   ensures result == lastWalk
+//@   callsite traversal.WalkMatching: assert $n == node && $s == maxDepthSelector
+//@ ghost nValidated int
+//@ func github.com/ipfs/go-graphsync.IncomingRequestHookActions.ValidateRequest
+//@   assumed
+//@   modifies nValidated
+//@   ghost nValidated := old(nValidated) + 1
+//@ func github.com/ipfs/go-graphsync.RequestData.Selector
+//@   assumed
+//@   ensures result == selOf(self)
+//@ fn selOf(r ref) ref
+//@ -- the hook validates the request exactly when the walk found no refused limit
+//@ func SelectorValidator.func1
+//@   requires request != nil && hookActions != nil
+//@   modifies lastWalk, nValidated
+//@   ensures (nValidated == old(nValidated) + 1) <==> (lastWalk == nil)
+//@   ensures lastWalk != nil ==> nValidated == old(nValidated)
+//@   callsite ValidateMaxRecursionDepth: assert $node == selOf(request) && $maxAcceptedDepth == maxAcceptedDepth
